@@ -14,7 +14,7 @@ the current density a circuit applies reproduces the circuit current exactly, fo
 (flat density) and for conducting regions (density proportional to conductivity); the reluctivity
 element matrix `Mx/μ₂ + My/μ₁` is the Galerkin form of the curl–curl operator (through the element
 theorems of C03); the consistent-mass eddy matrix is symmetric with row sums `a/3`.
-The whole first pass of `Static2D` for planar problems (`Model/MSolver.lean`: circuit integrals and cases, element matrices,
+The whole first pass of `Static2D` and of `StaticAxisymmetric` (`Model/MSolver.lean`: circuit integrals and cases, element matrices,
 mixed boundary terms, current and magnetisation sources, first-pass permeabilities, accumulation, point currents, prescribed
 potentials through `SetValue`, ties) is compared bit for bit with the system the real solver hands to `PCGSolve`; its
 permeability, circuit and prescription functions are related here to the ones the theorems above are about.
@@ -138,5 +138,35 @@ theorem prescribedA_cartesian (k : MConsts β) (lp : MBdryProp β) (x y : β) :
   simp [prescribedA]
 
 end Assembly
+
+
+/-! ### axisymmetric assembly model: the absolute thresholds of `R_hat` -/
+section AxiThresholds
+open XfemmVerif.MSolver
+variable {γ : Type} [Field γ] [LinearOrder γ] [DecidableEq γ]
+
+/-- **two radii below the absolute threshold `tiny` (1e-6 cm) select the on-axis closed form `R_hat = R`** — whatever the
+    element's true position: a small element drawn in micrometres, none of whose nodes is on the axis, is treated as if two of
+    its nodes were.  This is the mechanism behind the known finding of C10 (axisymmetric magnetics in micrometres), stated on the
+    model that is compared bit for bit with `StaticAxisymmetric`. -/
+theorem rHat_two_below_threshold (x : AxiExtra γ) (rn q : V3 γ) (R : γ)
+    (h0 : rn 0 < x.tiny) (h1 : rn 1 < x.tiny) (h2 : ¬ rn 2 < x.tiny) : rHat x rn q R = R := by
+  simp [rHat, h0, h1, h2]
+
+/-- with no radius below the threshold and no side (nearly) parallel to the axis the general closed form is used -/
+theorem rHat_general (x : AxiExtra γ) (rn q : V3 γ) (R : γ)
+    (h0 : ¬ rn 0 < x.tiny) (h1 : ¬ rn 1 < x.tiny) (h2 : ¬ rn 2 < x.tiny)
+    (g0 : ¬ x.abs (q 0) < x.tiny) (g1 : ¬ x.abs (q 1) < x.tiny) (g2 : ¬ x.abs (q 2) < x.tiny) :
+    rHat x rn q R = -(q 0 * q 1 * q 2) /
+      (2 * (q 0 * rn 0 * x.log (rn 0) + q 1 * rn 1 * x.log (rn 1) + q 2 * rn 2 * x.log (rn 2))) := by
+  simp [rHat, h0, h1, h2, g0, g1, g2]
+
+/-- the axisymmetric solver scales the permeabilities of an in-plane lamination by the fill factor (no air term), unlike the
+    planar one (`lamMu`): recorded as the model has it -/
+theorem firstPassMuAxi_solid (bp : MBlockProp γ) (h : bp.lamType = 0) :
+    firstPassMuAxi bp = (bp.mux * bp.lamFill, bp.muy * bp.lamFill) := by
+  simp [firstPassMuAxi, h]
+
+end AxiThresholds
 
 end XfemmVerif.C05
